@@ -81,7 +81,7 @@ def run_script(hx, src, tag, args=(), timeout=3000, watchdog=1200):
 
 # ------------------------------------------------------------------------------------------------ cycles
 
-def judge_cycle(name, n, rc, out, err):
+def judge_cycle(name, n, rc, out, err, metrics=None):
     """-> (verdict dict)  verdict['leaks'] = {metric: (p1, p2)}; verdict['fail'] = text if the run itself failed"""
     ms = {}
     for l in out.splitlines():
@@ -93,10 +93,13 @@ def judge_cycle(name, n, rc, out, err):
         why = ("hang: " + [l for l in out.splitlines() if l.startswith(("IDLE-NOT-DONE", "STALE-TIMERS-BLOCK", "NO-WAKE-SOURCE"))][0]) if (
             "IDLE-NOT-DONE" in out or "STALE-TIMERS-BLOCK" in out or "NO-WAKE-SOURCE" in out) else (
             "watchdog: event loop did not return" if "WATCHDOG" in out else ("timeout" if rc is None else "rc=%s" % rc))
+        errs = [l.strip() for l in err.splitlines() if l.startswith("error:") or "AddressSanitizer" in l or "runtime error" in l]
+        if errs:
+            why += "; script/sanitizer error: " + errs[0][:300]
         v["fail"] = "%s; stdout tail: %s; stderr tail: %s" % (why, out[-400:], err[-1200:])
         return v
     thr = max(3, n // 10)
-    for k in LEAK_METRICS:
+    for k in (metrics or LEAK_METRICS):
         d = ms["p2"].get(k, 0) - ms["p1"].get(k, 0)
         if d >= thr:
             v["leaks"][k] = (ms["p0"].get(k), ms["p1"].get(k), ms["p2"].get(k))
@@ -108,7 +111,8 @@ def judge_cycle(name, n, rc, out, err):
 def run_cycle(hx, name, rng, n):
     src, par = c20gen.cycle_script(name, rng, n)
     rc, out, err = run_script(hx, src, "cyc-" + name, args=("--idle",), watchdog=400, timeout=3000)
-    v = judge_cycle(name, n, rc, out, err)
+    spec = c20gen.CYCLES[name]
+    v = judge_cycle(name, n, rc, out, err, metrics=spec[2] if len(spec) > 2 else None)
     v["src"] = src
     v["params"] = par
     return v
@@ -315,6 +319,8 @@ def run(ctx):
         lo, hi = c20gen.COST_N[cost]
         # every cycle at several repeat counts across the range 50..5000 (quick: 50..~600); N varies a little with the seed
         sizes = [50, lo] if quick else [50, lo, hi]
+        if cost == "matrix":
+            sizes = [lo] if quick else [lo, hi]
         for si, n in enumerate(sizes):
             n = n + ctx.rng.fork("n/%s/%d" % (name, si)).below(max(1, n // 4))
             jobs.append((name, ctx.rng.fork("cycle/%s/%d" % (name, si)), n))
@@ -450,7 +456,8 @@ def replay(ctx, path):
     hx = ctx.build.harness("asan", "c20loop", [os.path.join(VERIF, "harness/C20/c20loop.c")])
     if r.get("kind") == "cycle":
         rc, out, err = run_script(hx, r["source"], "replay", args=("--idle",), watchdog=400)
-        v = judge_cycle(r["name"], r["N"], rc, out, err)
+        spec = c20gen.CYCLES.get(r["name"], ())
+        v = judge_cycle(r["name"], r["N"], rc, out, err, metrics=spec[2] if len(spec) > 2 else None)
         print(out[-1500:])
         if v["leaks"] or v["fail"]:
             ctx.violation(r["signature"], dict(r, reproduced=True), what="replay reproduces: %s %s" % (v["leaks"], v["fail"]))
